@@ -40,15 +40,27 @@ pub struct Batch<S> {
     pub seqs: Option<Vec<S>>,
     #[serde(default, skip_serializing_if = "std::ops::Not::not")]
     pub strict: bool,
+    /// Start value of std's hash keys on the run's thread (iteration order and bucket layout of the product's
+    /// HashMaps); 0 = the legacy constant. Read by the runner before the world executes.
+    #[serde(default, skip_serializing_if = "hash_seed_is_zero")]
+    pub hash_seed: u64,
+}
+
+fn hash_seed_is_zero(v: &u64) -> bool {
+    *v == 0
 }
 
 impl<S: SeqSpec> Batch<S> {
     pub fn seeded(seed: u64, batch: u64) -> Self {
-        Batch { seed: Some(seed), batch: Some(batch), seqs: None, strict: false }
+        Batch { seed: Some(seed), batch: Some(batch), seqs: None, strict: false, hash_seed: crate::core::rng::Rng::new(seed).sub("hash").next_u64() | 1 }
     }
 
     pub fn explicit(seqs: Vec<S>, strict: bool) -> Self {
-        Batch { seed: None, batch: None, seqs: Some(seqs), strict }
+        Batch { seed: None, batch: None, seqs: Some(seqs), strict, hash_seed: 0 }
+    }
+
+    fn explicit_like(&self, seqs: Vec<S>) -> Self {
+        Batch { seed: None, batch: None, seqs: Some(seqs), strict: self.strict, hash_seed: self.hash_seed }
     }
 
     pub fn parse(j: &Json) -> Result<Self, String>
@@ -80,7 +92,7 @@ impl<S: SeqSpec> Batch<S> {
             let mut idx: Vec<usize> = (0..seqs.len()).collect();
             idx.sort_by_key(|i| (seqs[*i].op_count(), *i));
             for i in idx {
-                out.push(Batch::explicit(vec![seqs[i].clone()], self.strict));
+                out.push(self.explicit_like(vec![seqs[i].clone()]));
             }
             return out;
         }
@@ -90,13 +102,13 @@ impl<S: SeqSpec> Batch<S> {
         while chunk >= 1 {
             let mut start = 0;
             while start + chunk <= len {
-                out.push(Batch::explicit(vec![seq.without_ops(start, chunk)], self.strict));
+                out.push(self.explicit_like(vec![seq.without_ops(start, chunk)]));
                 start += chunk;
             }
             chunk /= 2;
         }
         for s in seq.simplify() {
-            out.push(Batch::explicit(vec![s], self.strict));
+            out.push(self.explicit_like(vec![s]));
         }
         out
     }
